@@ -448,13 +448,13 @@ impl<'a, R: Clone> AsyncGlobalCache<'a, R> {
 
         let mut order = self.order.lock();
 
-        // Check if another task already inserted this key while we were computing
-        if self.is_already_key_inserted(key, &mut order) {
-            return;
-        }
+        // Check if this key is already cached (e.g. another task inserted it while we were computing)
+        let replacing = self.is_already_key_inserted(key, &mut order);
 
-        // Handle entry-count limits
-        self.handle_entry_limit_eviction(&mut order);
+        // Handle entry-count limits (replacing an entry in place does not grow the cache)
+        if !replacing {
+            self.handle_entry_limit_eviction(&mut order);
+        }
 
         // Add the new entry to the order queue
         order.push_back(key.to_string());
@@ -495,9 +495,16 @@ impl<'a, R: Clone> AsyncGlobalCache<'a, R> {
         order: &mut MutexGuard<RawMutex, VecDeque<String>>,
     ) -> bool {
         if self.cache.contains_key(key) {
-            // Key already exists: drop the stale entry so that the new value replaces it
-            self.cache.remove(key);
+            // Key already exists: un-queue it, the new value replaces it and is queued as the newest entry
             order.retain(|k| k != key);
+            if self.max_memory.is_some() {
+                // Memory accounting must not count the value that is being replaced
+                self.cache.remove(key);
+                return false;
+            }
+            // The entry is overwritten in place by the caller: removing it first would make
+            // the key transiently absent for concurrent lookups
+            return true;
         }
         false
     }
@@ -801,10 +808,8 @@ impl<'a, R: Clone + crate::MemoryEstimator> AsyncGlobalCache<'a, R> {
 
         let mut order = self.order.lock();
 
-        // Check if another task already inserted this key while we were computing
-        if self.is_already_key_inserted(key, &mut order) {
-            return;
-        }
+        // Check if this key is already cached (e.g. another task inserted it while we were computing)
+        let replacing = self.is_already_key_inserted(key, &mut order);
 
         // Check memory limit first (if specified)
         if let Some(max_mem) = self.max_memory {
@@ -891,8 +896,10 @@ impl<'a, R: Clone + crate::MemoryEstimator> AsyncGlobalCache<'a, R> {
             }
         }
 
-        // Handle entry-count limits (reuse the same method)
-        self.handle_entry_limit_eviction(&mut order);
+        // Handle entry-count limits (reuse the same method; replacing in place does not grow the cache)
+        if !replacing {
+            self.handle_entry_limit_eviction(&mut order);
+        }
 
         // Add the new entry to the order queue
         order.push_back(key.to_string());
